@@ -289,3 +289,44 @@ func init() {
 		}
 	}
 }
+
+func init() {
+	intrinsics["github.com/google/uuid.New"] = func(e *Exec, th *Thread, caller *Frame, site ssa.Instruction, args []Value) Value {
+		e.uuidCounter++
+		a := &ArrObj{Elems: make([]Value, 16)}
+		e.nobj++
+		a.id = e.nobj
+		for i := range a.Elems {
+			a.Elems[i] = e.ctx.Const(smt.U8, 0)
+		}
+		a.Elems[15] = e.ctx.Const(smt.U8, uint64(e.uuidCounter&0xff))
+		a.Elems[14] = e.ctx.Const(smt.U8, uint64((e.uuidCounter>>8)&0xff))
+		return a
+	}
+	// the wall clock is a counter of seconds: monotone, never the subject of a check
+	now := func(e *Exec, th *Thread, caller *Frame, site ssa.Instruction, args []Value) Value {
+		e.clockTick++
+		// time.Time{wall uint64, ext int64, loc *Location}: ext = seconds since year 1 when wall has no monotonic bit
+		return StructV{e.ctx.Const(smt.U64, 0), e.ctx.Int(smt.I64, 63800000000+int64(e.clockTick)), (*Pointer)(nil)}
+	}
+	intrinsics["time.Now"] = now
+	intrinsics["time.Since"] = func(e *Exec, th *Thread, caller *Frame, site ssa.Instruction, args []Value) Value {
+		return e.ctx.Int(smt.I64, 1000)
+	}
+	intrinsics["time.Sleep"] = func(e *Exec, th *Thread, caller *Frame, site ssa.Instruction, args []Value) Value {
+		e.yield(th, "sleep")
+		return nil
+	}
+	intrinsics["github.com/lindb/common/pkg/fasttime.UnixNano"] = func(e *Exec, th *Thread, caller *Frame, site ssa.Instruction, args []Value) Value {
+		e.clockTick++
+		return e.ctx.Int(smt.I64, 1700000000000000000+int64(e.clockTick)*1000000)
+	}
+	intrinsics["github.com/lindb/common/pkg/fasttime.UnixMilliseconds"] = func(e *Exec, th *Thread, caller *Frame, site ssa.Instruction, args []Value) Value {
+		e.clockTick++
+		return e.ctx.Int(smt.I64, 1700000000000+int64(e.clockTick))
+	}
+	intrinsics["github.com/lindb/common/pkg/fasttime.UnixTimestamp"] = func(e *Exec, th *Thread, caller *Frame, site ssa.Instruction, args []Value) Value {
+		e.clockTick++
+		return e.ctx.Int(smt.I64, 1700000000+int64(e.clockTick))
+	}
+}
